@@ -63,13 +63,17 @@ def inputFor (ps : PipeState) (e : Event) : Payload :=
       (if ps.initImports.isEmpty then [] else [.simple (.assignList "__all__" (sortStrings names))]) }
   | _, x => x
 
+/-- `ClientGenerator._add_import`: `if import_.names and import_.module: self._imports.append(import_)`
+    (only the client generator's own calls of the hook feed its import list) -/
+def keepClientImport (c : Call) (i : ImportFrom) : Bool :=
+  c.caller == some "ClientGenerator" && !i.names.isEmpty && (match i.module with | some s => s != "" | none => false)
+
 /-- bookkeeping of the generator after a hook returned -/
 def record (ps : PipeState) (c : Call) (out : Payload) : PipeState :=
   match c.hook, out with
   | "generate_client_method", .method m => { ps with methodsOut := ps.methodsOut ++ [m] }
   | "generate_client_import", .imp i =>
-    if c.caller == some "ClientGenerator" && !i.names.isEmpty && (match i.module with | some s => s != "" | none => false)
-    then { ps with importsOut := ps.importsOut ++ [i] } else ps
+    if keepClientImport c i then { ps with importsOut := ps.importsOut ++ [i] } else ps
   | "generate_gql_function", .method m => { ps with gqlOut := some m }
   | "generate_client_class", .klass k => { ps with classOut := some k }
   | "generate_init_import", .imp i => { ps with initImports := ps.initImports ++ [i] }
